@@ -5,8 +5,8 @@ import UtilModel.Lemmas.LockProto
 
 `UU.randomID a b` models `RandomID()` given the two draws `a, b` of `twoRandomUint63`
 (`uint64(random.Int63())`, hence 63-bit values: `msb = false`). The bit expressions are the generated
-`Gen.uu_rndHigher` / `Gen.uu_rndLower`. The four bit facts come from `Lemmas/UURandom.lean`
-(`rnd_version_bv`, `rnd_variant_bv`, `rnd_onto_bv`, `rnd_fixed_bv`, each one `bv_decide` call).
+`Gen.uu_rndHigher` / `Gen.uu_rndLower`. The bit facts come from `Lemmas/UURandom.lean`
+(`rnd_version_bv`, `rnd_variant_bv`, `rnd_onto_bv`, `rnd_fixed_bv`, … — kernel-only proofs by bit extensionality; no `bv_decide`).
 
 Finding: the variant claim needs the second draw to be 63-bit. `Lower = (b >> 1) | 1<<63`, so bit 62 of
 `Lower` is bit 63 of `b`; for a full 64-bit `b` with the top bit set the variant would be 2 or 3
